@@ -94,6 +94,28 @@ def sna_guard(chk, prog, ln, m):
                       m, sorted(set(muts))[:4], "128K" if big else "48K" if big is not None else "undecided"))
     chk.check(n >= 1, key + "/explored", "no mutating path explored")
     chk.count("sna-guard-paths", n)
+    rejections(chk, rs, "T-TABLE/sna::load/%s" % m, lambda x: x == "file0[25]", "an SNA file")
+
+
+def rejections(chk, rs, key, allowed_syms, what):
+    """T-TABLE/rejections: a loader may refuse a file because a read or seek failed, because of its size, or because of
+    the few content bytes the format defines as invalid (`allowed_syms`: a predicate over symbol names).  An error exit
+    whose deciding condition looks at any other byte of the file refuses well-formed files."""
+    n = 0
+    for r in rs:
+        if not (r.outcome == "return" and isinstance(r.ret, Agg) and r.ret.variant == 1):
+            continue
+        last = [c for c in r.pc if c[0] in ("eq", "ne", "variant")]
+        if not last:
+            continue
+        c = last[-1]
+        n += 1
+        if c[0] == "variant" or not isinstance(c[1], T):
+            continue          # a failed read / seek / conversion
+        bad = sorted(x for x in tm.syms(c[1]) if x.startswith("file") and not allowed_syms(x))
+        chk.check(not bad, key + "/rejections", "%s is refused on a condition over %s (%s): not one of the reasons the format gives for rejecting a file, so well-formed files are refused" % (
+            what, bad[:4], tm.show(c[1])[:120]))
+    chk.count("rejection-paths", n)
 
 
 def has(prog, ln, name):
@@ -316,6 +338,11 @@ def szx(chk, prog, ln, m):
             chk.check(not bad or inflated, "T-TABLE/%s/RAMP/compressed-rejection" % key,
                       "a compressed RAM page is rejected on a condition over the length of the compressed stream (%s): an incompressible page deflates to more than 16384 bytes, and the same state with stored pages loads" % tm.show(last[-1][1])[:160])
     chk.count("ramp-rejections", n_rej)
+    def szx_ok(x):
+        if x.startswith("file0[") or x.startswith("file1["):
+            return True           # file header (magic, version, machine id) and chunk header (id, size)
+        return x in (tm.show(blk(0)), tm.show(blk(1)), tm.show(blk(2)), tm.show(blk(28)))      # RAMP flags, RAMP page, Z80R interrupt mode
+    rejections(chk, rs, "T-TABLE/%s" % key, szx_ok, "an SZX file")
     # ---------------- unknown chunk: nothing applied
     for r in rs:
         if r.outcome != "return":
